@@ -33,6 +33,9 @@ type result struct {
 	Classes []string     `json:"classes"`
 }
 
+// harnesses whose runs must not share a process
+var isolated = map[string]bool{"c19.Validators": true}
+
 func main() {
 	if len(os.Args) > 1 && os.Args[1] == "-list" {
 		var names []string
@@ -59,6 +62,23 @@ func main() {
 		h, ok := registry[j.Harness]
 		if !ok {
 			enc.Encode(result{ID: j.ID, Outcome: "unknown-harness"})
+			continue
+		}
+		if isolated[j.Harness] && os.Getenv("VREPLAY_CHILD") == "" {
+			// this harness changes process-wide state of the library (that is
+			// its subject): every run gets a process of its own
+			jb, _ := json.Marshal(j)
+			cmd := exec.Command(os.Args[0])
+			cmd.Env = append(os.Environ(), "VREPLAY_CHILD=1")
+			cmd.Stdin = bytes.NewReader(jb)
+			cmd.Stderr = os.Stderr
+			ob, err := cmd.Output()
+			var r result
+			if err != nil || json.Unmarshal(ob, &r) != nil {
+				r = result{ID: j.ID, Outcome: "child-failed", Msg: fmt.Sprint(err)}
+			}
+			enc.Encode(r)
+			out.Flush()
 			continue
 		}
 		job := j
